@@ -122,37 +122,132 @@ def _mk_nms(n, second_run=False):
     return q
 
 
-def _replay(cex, v, vm):
-    n = vm.notes['n']
-    g = vm.notes['grid']
-    dets = []
-    for i in range(n):
-        try:
-            sc = "Some(%rf32)" % grid_value(cex, vm, 'score%d' % i)
-        except KeyError:
-            sc = "None"
-        dets.append((grid_value(cex, vm, 'height%d' % i), sc))
-    # geometry is abstract in the query; the replay realises rank/validity effects only (boxes far apart: no suppression)
-    items = ", ".join("(Universal2DBox::new(%d.0, 0.0, None, 1.0, %rf32), %s)" % (1000 * i, h, sc) for i, (h, sc) in enumerate(dets))
-    sthr = "Some(%s)" % rust_f32(cex_get(cex, 'score_threshold')) if vm.notes['st_given'] else "None"
-    return '''
+def _layout(heights, areas, inter):
+    """x positions of top-aligned axis-aligned boxes (width = area/height) realising the pairwise intersection areas of the
+    counterexample; exact when a layout exists on the candidate set, else the closest candidate (the replay states the
+    oracle on the real geometry of the boxes it builds, so an inexact layout can only fail to reproduce)"""
+    n = len(heights)
+    w = [areas[i] / heights[i] if heights[i] > 0 else 1.0 for i in range(n)]
+
+    def ox(i, j, xi, xj):
+        return max(0.0, min(xi + w[i], xj + w[j]) - max(xi, xj))
+
+    def want(i, j):
+        hm = min(heights[i], heights[j])
+        return inter[(min(i, j), max(i, j))] / hm if hm > 0 else 0.0
+    import itertools
+    best = (None, 1e18)
+
+    def err_of(xs):
+        return sum(abs(ox(i, j, xs[i], xs[j]) - want(i, j)) for i in range(n) for j in range(i + 1, n) if heights[i] > 0 and heights[j] > 0)
+
+    def rec(order, pos, xs):
+        nonlocal best
+        if best[1] < 1e-9:
+            return
+        if pos == n:
+            e = err_of(xs)
+            if e < best[1]:
+                best = ([xs[i] for i in range(n)], e)
+            return
+        k = order[pos]
+        if heights[k] <= 0:
+            xs[k] = 1000.0 * (k + 1)
+            rec(order, pos + 1, xs)
+            return
+        cands = {100.0 * (k + 1)}
+        for i in order[:pos]:
+            if heights[i] <= 0:
+                continue
+            o = want(i, k)
+            cands.update([xs[i] + w[i] - o, xs[i] + o - w[k], xs[i], xs[i] + w[i] - w[k], xs[i] + w[i] + 1.0, xs[i] - w[k] - 1.0])
+        for c in sorted(cands):
+            xs[k] = c
+            rec(order, pos + 1, xs)
+    # placement order matters (a box overlapping two others has to be placed before them): try every order
+    for order in itertools.permutations(range(n)):
+        rec(list(order), 0, {})
+    return best[0], w
+
+
+NMS_REPLAY = r'''
 use similari::utils::bbox::Universal2DBox;
 use similari::utils::nms::nms;
 
+type Det = (Universal2DBox, Option<f32>);
+
+fn check(dets: &Vec<Det>, thr: f32, sthr: Option<f32>) {
+    let out = nms(dets, thr, sthr);
+    let idx: Vec<usize> = out.iter().map(|b| dets.iter().position(|d| std::ptr::eq(&d.0, *b)).expect("output is an input box")).collect();
+    let st = sthr.unwrap_or(f32::MIN);
+    let passed: Vec<usize> = (0..dets.len()).filter(|i| dets[*i].1.unwrap_or(f32::MAX) > st && dets[*i].0.height > 0.0 && dets[*i].0.aspect > 0.0).collect();
+    let rank = |i: usize| dets[i].1.unwrap_or(dets[i].0.height);
+    let higher = |a: usize, b: usize| rank(a) > rank(b) || (rank(a) == rank(b) && a < b);
+    let cover = |k: usize, b: usize| (Universal2DBox::intersection(&dets[k].0, &dets[b].0) as f32 / dets[b].0.area()) > thr;
+    for (n, i) in idx.iter().enumerate() {
+        assert!(passed.contains(i), "only boxes passing the score filter with positive size are returned");
+        assert!(!idx[..n].contains(i), "no box returned twice");
+    }
+    for w in idx.windows(2) { assert!(higher(w[0], w[1]), "output ordered by decreasing rank (stable)"); }
+    if let Some(top) = passed.iter().find(|i| passed.iter().all(|j| *j == **i || higher(**i, *j))) {
+        assert!(idx.contains(top), "the top-ranked box is always kept");
+    }
+    for b in &idx { for k in &idx { if k != b && higher(*k, *b) {
+        assert!(!cover(*k, *b), "kept box {} is covered above the threshold by the higher-ranked kept box {}", b, k);
+    } } }
+    for b in &passed { if !idx.contains(b) {
+        assert!(idx.iter().any(|k| higher(*k, *b) && cover(*k, *b)), "dropped box {} is not covered above the threshold by any kept higher-ranked box", b);
+    } }
+    let dets2: Vec<Det> = idx.iter().map(|i| dets[*i].clone()).collect();
+    let out2 = nms(&dets2, thr, sthr);
+    assert!(out2.len() == dets2.len() && out2.iter().zip(dets2.iter()).all(|(o, d)| std::ptr::eq(*o, &d.0)), "applying NMS to its own output changes nothing");
+}
+
+fn permutations(n: usize) -> Vec<Vec<usize>> {
+    if n == 0 { return vec![vec![]]; }
+    let mut out = vec![];
+    for p in permutations(n - 1) { for pos in 0..n { let mut q = p.clone(); q.insert(pos, n - 1); out.push(q); } }
+    out
+}
+
 #[test]
 fn replay() {
-    let dets = vec![%(items)s];
-    let out = nms(&dets, %(thr)s, %(sthr)s);
-    // boxes are disjoint: exactly the boxes passing the filter, ordered by decreasing rank (stable)
-    let thr: f32 = %(sthr_v)s;
-    let mut exp: Vec<(usize, f32)> = dets.iter().enumerate().filter(|(_, (b, s))| s.unwrap_or(f32::MAX) > thr && b.height > 0.0 && b.aspect > 0.0)
-        .map(|(i, (b, s))| (i, s.unwrap_or(b.height))).collect();
-    exp.sort_by(|a, b| b.1.partial_cmp(&a.1).unwrap());
-    let got: Vec<usize> = out.iter().map(|b| (b.xc / 1000.0) as usize).collect();
-    assert_eq!(got, exp.iter().map(|e| e.0).collect::<Vec<_>>());
+    // boxes realising the rank / area / pairwise-intersection values of the counterexample (top-aligned, axis-aligned)
+    let dets: Vec<Det> = vec![%(items)s];
+    let thr: f32 = %(thr)s;
+    let sthr: Option<f32> = %(sthr)s;
+    check(&dets, thr, sthr);
+    // the same boxes in every input order
+    for p in permutations(dets.len()) {
+        let d: Vec<Det> = p.iter().map(|i| dets[*i].clone()).collect();
+        check(&d, thr, sthr);
+    }
 }
-''' % dict(items=items, thr=rust_f32(cex_get(cex, 'nms_threshold')), sthr=sthr,
-           sthr_v=(rust_f32(cex_get(cex, 'score_threshold')) if vm.notes['st_given'] else "f32::MIN"))
+'''
+
+
+def _replay(cex, v, vm):
+    n = vm.notes['n']
+    heights, scores, areas = [], [], []
+    for i in range(n):
+        try:
+            scores.append(grid_value(cex, vm, 'score%d' % i))
+        except KeyError:
+            scores.append(None)
+        heights.append(grid_value(cex, vm, 'height%d' % i))
+        areas.append(grid_value(cex, vm, 'area%d' % i))
+    inter = {(i, j): grid_value(cex, vm, 'inter_%d_%d' % (i, j)) for i in range(n) for j in range(i + 1, n)}
+    xs, w = _layout(heights, areas, inter)
+    items = []
+    for i in range(n):
+        h = heights[i]
+        sc = "Some(%rf32)" % scores[i] if scores[i] is not None else "None"
+        if h > 0:
+            items.append("(Universal2DBox::new(%rf32, %rf32, None, %rf32, %rf32), %s)" % (xs[i] + w[i] / 2.0, h / 2.0, w[i] / h, h, sc))
+        else:
+            items.append("(Universal2DBox::new(%rf32, 0.0, None, 1.0, %rf32), %s)" % (xs[i], h, sc))
+    return NMS_REPLAY % dict(items=", ".join(items), thr=rust_f32(cex_get(cex, 'nms_threshold')),
+                             sthr="Some(%s)" % rust_f32(cex_get(cex, 'score_threshold')) if vm.notes['st_given'] else "None")
 
 
 N = "similari::utils::nms::nms"
